@@ -261,6 +261,17 @@ type rawTable struct {
 func q(s string) string { return "'" + strings.ReplaceAll(s, "'", "''") + "'" }
 
 func rawCatalogue(db *sql.DB) ([]rawTable, error) {
+	ts, err := rawCatalogueNoProbe(db)
+	if err != nil {
+		return nil, err
+	}
+	for i := range ts {
+		ts[i].AutoInc, ts[i].Probe = rawProbe(db, &ts[i])
+	}
+	return ts, nil
+}
+
+func rawCatalogueNoProbe(db *sql.DB) ([]rawTable, error) {
 	rows, err := db.Query("SELECT name, sql FROM sqlite_master WHERE type = 'table' AND name NOT LIKE 'sqlite_%' ORDER BY rowid")
 	if err != nil {
 		return nil, err
@@ -354,7 +365,6 @@ func rawCatalogue(db *sql.DB) ([]rawTable, error) {
 			t.FKs[k].RefCols = append(t.FKs[k].RefCols, to.String)
 		}
 		rows.Close()
-		t.AutoInc, t.Probe = rawProbe(db, t)
 	}
 	return ts, nil
 }
@@ -399,6 +409,8 @@ func rawProbe(db *sql.DB, t *rawTable) (autoinc bool, probe string) {
 		cols = append(cols, dq(c.Name))
 		vals = append(vals, v)
 	}
+	// the database may hold rows (history dimension): the probe works on an emptied table, rolled back afterwards
+	conn.ExecContext(ctx, "DELETE FROM "+dq(t.Name))
 	ins := "INSERT INTO " + dq(t.Name) + " (" + strings.Join(cols, ", ") + ") VALUES (" + strings.Join(vals, ", ") + ")"
 	if _, err := conn.ExecContext(ctx, ins); err != nil {
 		return false, "n/a"
@@ -471,7 +483,7 @@ func rawCanon(ts []rawTable, withChecksFromSQL bool) []string {
 			if x.Origin == "pk" {
 				name = "<pk>"
 			}
-			is = append(is, fmt.Sprintf("  idx %s unique=%v origin=%s partial=%v parts=[%s]", name, x.Unique, origin, x.Partial, strings.Join(ps, "; ")))
+			is = append(is, fmt.Sprintf("  idx %s unique=%v origin=%s partial=%v where=%q parts=[%s]", name, x.Unique, origin, x.Partial, normPredicate(sqlPredicate(x.SQL)), strings.Join(ps, "; ")))
 		}
 		sort.Strings(is)
 		out = append(out, is...)
@@ -485,10 +497,166 @@ func rawCanon(ts []rawTable, withChecksFromSQL bool) []string {
 	return out
 }
 
+// sqlPredicate extracts the predicate of a stored CREATE INDEX statement with a small tokenizer of
+// its own (string literals, quoted identifiers, bracket identifiers, comments and nested parentheses
+// are skipped): the text after the keyword WHERE that follows the closing parenthesis of the key
+// parts.  "" when the statement has none.  Independent of inspect.go's strings.Index cut.
+func sqlPredicate(stmt string) string {
+	p, _ := sqlPredicateAt(stmt)
+	return p
+}
+
+// sqlPredicateAt also returns the offset of the keyword (-1: none).
+func sqlPredicateAt(stmt string) (string, int) {
+	depth, i, n := 0, 0, len(stmt)
+	seenParts := false
+	for i < n {
+		c := stmt[i]
+		switch {
+		case c == '\'' || c == '"' || c == '`':
+			j := i + 1
+			for j < n {
+				if stmt[j] == c {
+					if j+1 < n && stmt[j+1] == c {
+						j += 2
+						continue
+					}
+					break
+				}
+				j++
+			}
+			i = j + 1
+			continue
+		case c == '[':
+			j := strings.IndexByte(stmt[i:], ']')
+			if j < 0 {
+				return "", -1
+			}
+			i += j + 1
+			continue
+		case c == '-' && i+1 < n && stmt[i+1] == '-':
+			j := strings.IndexByte(stmt[i:], '\n')
+			if j < 0 {
+				return "", -1
+			}
+			i += j + 1
+			continue
+		case c == '/' && i+1 < n && stmt[i+1] == '*':
+			j := strings.Index(stmt[i+2:], "*/")
+			if j < 0 {
+				return "", -1
+			}
+			i += j + 4
+			continue
+		case c == '(':
+			depth++
+		case c == ')':
+			depth--
+			if depth == 0 {
+				seenParts = true
+			}
+		default:
+			if seenParts && depth == 0 && i+5 <= n && strings.EqualFold(stmt[i:i+5], "WHERE") &&
+				(i == 0 || !isWordByte(stmt[i-1])) && (i+5 == n || !isWordByte(stmt[i+5])) {
+				return strings.TrimSpace(stmt[i+5:]), i
+			}
+		}
+		i++
+	}
+	return "", -1
+}
+
+func isWordByte(c byte) bool {
+	return c == '_' || c >= '0' && c <= '9' || c >= 'a' && c <= 'z' || c >= 'A' && c <= 'Z'
+}
+
+// normPredicate: comparison form of a predicate (spacing and redundant outer parentheses aside)
+func normPredicate(p string) string {
+	return stripOuter(strings.Join(strings.Fields(p), ""))
+}
+
 func autoName(t string, ps []rawIdxPart) string {
 	n := []string{t}
 	for _, p := range ps {
 		n = append(n, p.Name)
 	}
 	return strings.Join(n, "_")
+}
+
+// ---------------------------------------------------------------------------
+// Histories: what happened to the database between its creation and the inspection.
+
+var histories = []string{"fresh", "rows", "rows-analyze", "analyze-twice", "autoinc-rows-analyze"}
+
+// insertRows puts up to n rows into every table (foreign keys and CHECKs out of the way, rows that
+// violate a key are skipped): values k, k+1, ... in every ordinary column.
+func insertRows(db *sql.DB, from, n int) {
+	ts, err := rawCatalogueNoProbe(db)
+	if err != nil {
+		return
+	}
+	ctx := context.Background()
+	conn, err := db.Conn(ctx)
+	if err != nil {
+		return
+	}
+	defer conn.Close()
+	conn.ExecContext(ctx, "PRAGMA foreign_keys = off")
+	conn.ExecContext(ctx, "PRAGMA ignore_check_constraints = on")
+	defer conn.ExecContext(ctx, "PRAGMA foreign_keys = on")
+	defer conn.ExecContext(ctx, "PRAGMA ignore_check_constraints = off")
+	dq := func(s string) string { return `"` + strings.ReplaceAll(s, `"`, `""`) + `"` }
+	for _, t := range ts {
+		for k := from; k < from+n; k++ {
+			var cols, vals []string
+			for _, c := range t.Cols {
+				if c.Hidden != 0 {
+					continue
+				}
+				v := fmt.Sprint(k)
+				if t.Strict {
+					switch strings.ToLower(c.Type) {
+					case "text":
+						v = "'" + v + "'"
+					case "blob":
+						v = fmt.Sprintf("x'%02x'", k)
+					}
+				}
+				cols = append(cols, dq(c.Name))
+				vals = append(vals, v)
+			}
+			conn.ExecContext(ctx, "INSERT OR IGNORE INTO "+dq(t.Name)+" ("+strings.Join(cols, ", ")+") VALUES ("+strings.Join(vals, ", ")+")")
+		}
+	}
+}
+
+// applyHistory runs the history on a freshly created database; returns the engine tables that exist afterwards.
+func applyHistory(db *sql.DB, h string) (internal []string) {
+	switch h {
+	case "rows":
+		insertRows(db, 1, 3)
+	case "rows-analyze", "autoinc-rows-analyze":
+		insertRows(db, 1, 3)
+		db.Exec("ANALYZE")
+	case "analyze-twice":
+		insertRows(db, 1, 3)
+		db.Exec("ANALYZE")
+		insertRows(db, 10, 2)
+		if ts, err := rawCatalogueNoProbe(db); err == nil && len(ts) > 0 {
+			db.Exec(`ANALYZE "` + strings.ReplaceAll(ts[0].Name, `"`, `""`) + `"`)
+		}
+		db.Exec("PRAGMA optimize")
+		db.Exec("VACUUM")
+		db.Exec("ANALYZE")
+	}
+	rows, err := db.Query("SELECT name FROM sqlite_master WHERE type = 'table' AND name LIKE 'sqlite\\_%' ESCAPE '\\' ORDER BY name")
+	if err == nil {
+		for rows.Next() {
+			var n string
+			rows.Scan(&n)
+			internal = append(internal, n)
+		}
+		rows.Close()
+	}
+	return internal
 }
